@@ -117,6 +117,8 @@ def record_cfgs(quick):
         if "purego" in c["tags"]:
             out.append(c)
             continue
+        if c["label"] == "no-avx2":      # already present as <tier>+sm3-avx (same GODEBUG switch)
+            continue
         for suffix, gd in sm3:
             g = godebug(c["env"].get("GODEBUG"), gd)
             out.append(cfgs.c(c["label"] + suffix, g or None))
